@@ -26,7 +26,7 @@ func (P) Gen(r *core.Rand, tier string, emit func([]string)) {
 	pr := pxy.Profile{Modifiers: true, Tunnels: true}
 	for i := 0; i < n; {
 		c := pxy.GenCase(r, pr)
-		if len(c) > 0 && len(c[0]) > 0 && !contains(c[0], "listener=mitm") {
+		if len(c) > 0 && len(c[0]) > 0 && !contains(c[0], "mitm") && !contains(c[0], "listener=tls") {
 			continue
 		}
 		emit(c)
